@@ -58,7 +58,13 @@ def sameAll (rs : List (Except String Bytes)) : String :=
     `special <matches> <keys> <values>` /
     `nt regex <SubexpNames>` – `fastregex.createGroupNameTable` /
     `nt dissect <token names> <skipped flags>` – the `groupNames` of `dissect.CompileEx` /
-    `san <bytes>` – U+FFFD substitution (against Go's own decoder) -/
+    `san <bytes>` – U+FFFD substitution (against Go's own decoder) /
+    `num <bytes>` – `isNumeric` directly, and whether the bytes are a complete RFC 8259 number /
+    `esc <bytes>` – `escape` directly (+ whether the spec's string grammar reads it back) /
+    `wint <key> <int>` – `WriteInt` and `KeyCount` /
+    `msm <keys> <values>` – `MarshalStringMapInferred`, members sorted by name /
+    `kv <arg>`, `kvmap <args>` – `parseKeyValue`, `parseKeyValuesIntoMap` /
+    `xkey <key> <data> <kvs>` – the emulated `{.}` `{#}` `{.#}` `{#.}` of `rare expression -d … -k …` -/
 def handle : List String → String
   | ["json", n, u, nt, ix, ln] =>
     match parseNT nt, parseInts ix, Hex.dec ln with
@@ -95,6 +101,55 @@ def handle : List String → String
     match Hex.dec b with
     | some bytes => s!"ok {Hex.enc (sanitize bytes)} u={if validUtf8 bytes then 1 else 0}"
     | none => "bad-args"
+  | ["num", b] =>
+    match Hex.dec b with
+    | some s =>
+      let full := match parseNumber s with | some (_, []) => true | _ => false
+      s!"ok n={if isNumeric s then 1 else 0} j={if full then 1 else 0}"
+    | none => "bad-args"
+  | ["esc", b] =>
+    match Hex.dec b with
+    | some s => s!"ok {Hex.enc (escape s)} r={if strBody .norm (escape s ++ [0x22]) == some (s, []) then 1 else 0}"
+    | none => "bad-args"
+  | ["wint", k, n] =>
+    match Hex.dec k, n.toInt? with
+    | some key, some v =>
+      let jb := JB.opened.writeInt key v
+      s!"{describe jb.close.sb} c={jb.keyCount}"
+    | _, _ => "bad-args"
+  | ["msm", ks, vs] =>
+    match decHexList ks, decHexList vs with
+    | some keys, some vals =>
+      if keys.length ≠ vals.length then "bad-args"
+      else
+        -- the Go map: a repeated key keeps its last value
+        let m := (keys.zip vals).foldl (fun m p => mapSet m p.1 p.2) []
+        let texts := (orders m).map marshalStringMap
+        let canon := fun (t : Bytes) => (parseObj (sanitize t)).map fun ms =>
+          (sortNames (ms.map (·.1))).flatMap fun k => [k, match ms.find? (·.1 == k) with | some p => tag p.2 | none => []]
+        match texts.mapM canon with
+        | none => "ok v=0 m=x"
+        | some (c :: cs) => if cs.all (· == c) then s!"ok v=1 m={hexList c}" else "ok v=1 m=differs"
+        | some [] => "bad-args"
+    | _, _ => "bad-args"
+  | ["kv", b] =>
+    match Hex.dec b with
+    | some s => s!"ok {Hex.enc (parseKeyValue s).1} {Hex.enc (parseKeyValue s).2}"
+    | none => "bad-args"
+  | ["kvmap", b] =>
+    match decHexList b with
+    | some kvs =>
+      let m := parseKeyValuesIntoMap kvs
+      if m.isEmpty then "ok ."
+      else "ok " ++ ";".intercalate ((sortNames (m.map (·.1))).map fun n => s!"{Hex.enc n}={Hex.enc (mapGet [] m n)}")
+    | none => "bad-args"
+  | ["xkey", k, ds, kvs] =>
+    match Hex.dec k, decHexList ds, decHexList kvs with
+    | some key, some data, some kvl =>
+      match (orders (parseKeyValuesIntoMap kvl)).mapM fun o => expressionJsonKey key data o with
+      | none => "notjson"
+      | some rs => sameAll (rs.map .ok)
+    | _, _, _ => "bad-args"
   | _ => "bad-op"
 
 end Rare.Drv.C16
